@@ -13,6 +13,7 @@
    - `from X import n as k` binds k to getattr(X, n); when X is a package whose namespace does not
      bind n but which has a submodule n, that is the submodule (importlib._handle_fromlist); relative
      X is resolved by [resolve_relative] = importlib._bootstrap._resolve_name.
+     A package that imports from itself (`from . import sub`) gets the submodule.
    - importing a submodule sets it as an attribute of its package: a package namespace that does not
      bind n itself has attribute n = submodule n.
    - class bodies: a name is looked up in the class namespace, then in the module globals -- never in
@@ -133,8 +134,13 @@ Section Rel.
   | pb_import_as : forall m qual n t, is_module P t = true -> py_binder m qual n (BImportAs t) (VMod t)
   | pb_from : forall m qual n mm level modname orig X v,
       find_module P m = Some mm -> resolve_relative m (m_pkg mm) level modname = Some X ->
-      is_module P X = true -> py_ns X [] orig v ->
+      is_module P X = true -> path_eqb X m = false -> py_ns X [] orig v ->
       py_binder m qual n (BFrom level modname orig) v
+  | pb_from_self : forall m qual n mm level modname orig,
+      (* a package importing one of its own submodules: `from . import sub` in pkg/__init__.py *)
+      find_module P m = Some mm -> resolve_relative m (m_pkg mm) level modname = Some m ->
+      is_module P (m ++ [orig]) = true ->
+      py_binder m qual n (BFrom level modname orig) (VMod (m ++ [orig]))
   | pb_alias : forall m qual n expr v, py_eval m qual expr v -> py_binder m qual n (BAlias expr) v
   with py_eval : path -> path -> path -> value -> Prop :=
   | pe_dotted : forall m qual d rest v0 v,
@@ -200,7 +206,9 @@ Section Eval.
             | BImportAs t => if is_module P t then Some (VMod t) else None
             | BFrom level modname orig =>
               match resolve_relative m (m_pkg mm) level modname with
-              | Some X => if is_module P X then ev f (RNs X [] orig) else None
+              | Some X => if path_eqb X m
+                          then (if is_module P (m ++ [orig]) then Some (VMod (m ++ [orig])) else None)
+                          else if is_module P X then ev f (RNs X [] orig) else None
               | None => None
               end
             | BAlias expr => ev f (REval m qual expr)
